@@ -432,11 +432,11 @@ def conclude(ctx, broken):
     failing input still mean the property is no longer shown."""
     if getattr(ctx, "recording", False):
         return
-    if broken and not ctx.violations and not ctx.known_hits:
+    if broken and not ctx.violations:
         for name, detail in broken[:3]:
             ctx.violation("theorem:" + name, "proof obligation no longer checks: %s — %s" % (name, detail[:300]), {"broken": name, "detail": detail}, found_input=False)
     pend = getattr(ctx, "_pending_dis", [])
-    if pend and not ctx.violations and not ctx.known_hits:
+    if pend and not ctx.violations:
         ctx.violation("correspondence:" + pend[0][0], "model and implementation disagree (suite %s) but no input violating the property was found" % pend[0][0],
                       {"broken": "correspondence " + pend[0][0], "examples": [(s, l[:300], c, m) for s, l, c, m in pend[:5]]}, found_input=False)
 
